@@ -102,6 +102,23 @@ theorem c02_close_only_when_done (p : Par) (r : Resp) (data : List UInt8) (o e :
     exact ⟨(c02_eof_immediate p o' e' k data hpc hk).2, o', e', k, hpc, rfl, hk⟩
   · exact absurd h (feed_notClose p r data hnot hw o e)
 
+
+/-- **C02 (input is delivered even while output is being produced).**  Whenever a `poll` reports the
+    stdin pipe writable (or broken), the very next system call of the library is the `write` of the
+    next input chunk -- whatever the other two streams report: delivery of the input (and of the
+    end-of-file that follows the last byte) is never postponed behind pending output. -/
+theorem c02_round_writes_when_stdin_ready (p : Par) (tmo : Option Nat) (dl2 : Nat) (i o e : Rev)
+    (hpc : p.pc = .poll tmo dl2) (hs : p.stdin = true) (hi : (i.pout || i.phup || i.perr) = true) :
+    ∃ o' e', (feed p (.revs i o e) []).pc = .wr o' e' ∧
+      pendingCall (feed p (.revs i o e) []) = .write (min WRITE_SIZE p.input.length) := by
+  have hany : i.any = true := by
+    simp only [Rev.any]
+    simp only [Bool.or_eq_true] at hi ⊢
+    rcases hi with (h | h) | h <;> simp [h]
+  simp only [feed, hpc, hany, Bool.true_or, if_true, hs, hi, Bool.and_self, Bool.true_and]
+  refine ⟨p.outRef && (o.pin || o.phup || o.perr), p.errRef && (e.pin || e.phup || e.perr), by simp [afterPoll], ?_⟩
+  simp [afterPoll, pendingCall]
+
 /-! ### Non-vacuity (tests, labelled as tests) -/
 def exW : World := initWorld 65536 65536 65536 [.readIn 10, .write .out [1, 2, 3], .write .err [9]] 0
 -- a concrete exchange: start, poll, write 2 bytes, close, child reads and writes, reads, EOF
